@@ -337,6 +337,11 @@ func suiteUpdateCLI(env *Env, res *Result) {
 				shape = "update_id_prefix_confusion"
 			}
 			res.addFailure(Failure{Kind: "C11", Shape: shape, Input: input, Detail: fmt.Sprintf("got %q want %q", clip(diffAround(o.after, want), 300), clip(diffAround(want, o.after), 300))})
+			if shape == "update_changes_other_bytes" && !strings.Contains(o.after, "\"@rx "+o.gen.Stdout+"\" \\") && !strings.Contains(o.after, "\"!@rx "+o.gen.Stdout+"\" \\") {
+				// C12: the operand stored by a successful update is not generate's output
+				res.addFailure(Failure{Kind: "C12", Shape: "stored_operand_differs_from_generated", Input: input,
+					Detail: fmt.Sprintf("generate prints %q; the file has %q", clip(o.gen.Stdout, 200), clip(diffAround(o.after, want), 300))})
+			}
 			continue
 		}
 		// ---- C12 oracles ----
